@@ -1,4 +1,5 @@
 import IdModel.Jose.JwsLemmas
+import IdModel.Jose.VerifierLemmas
 /-!
 # C01 — JWS verification binds the signature to exactly the bytes received
 
@@ -269,5 +270,129 @@ def Pex (b : Bytes) : Option Hdr := if b = [1] then some { alg := some "EdDSA" }
 
 example : (decodeCompact Pex (B64.enc [1] ++ 46 :: (B64.enc [104, 105] ++ 46 :: B64.enc [9])) none).map
     (fun it => (it.claims, it.signature)) = some ([104, 105], [9]) := by decide +kernel
+
+
+/-! ## the library's own verifiers (`EdDSAJwsVerifier`, `EcDSAJwsVerifier`) as the parameter `V`
+
+The dispatch tables and guard clauses are regenerated from `identity_eddsa_verifier` / `identity_ecdsa_verifier`
+(`Gen.C01`); the third-party cryptography stays a parameter (`Verifier.Crypto`). -/
+
+section LibraryVerifiers
+open Verifier
+
+/-- **`EdDSAJwsVerifier` accepts only**: algorithm `EdDSA`, an OKP key whose `crv` is exactly `Ed25519`, a 32-byte `x` that is
+a point, a 64-byte signature the scheme accepts -/
+theorem ed_sound (alg : String) (k : KeyMat) (n : Nat) (c : Crypto) (h : dispatch .ed alg k n c = .ok ()) :
+    alg = "EdDSA" ∧ k.kty = .okp ∧ k.crv = "Ed25519" ∧ k.xLen = some 32 ∧ n = 64 ∧
+    c.point "Ed25519" = true ∧ c.sigOk "Ed25519" = true := by
+  unfold dispatch at h
+  simp only [Gen.C01.edAlgs, List.contains_cons, List.contains_nil, Bool.or_false, beq_iff_eq] at h
+  split at h
+  · rename_i ha
+    unfold ed25519 at h
+    rw [firstFail_ok] at h
+    simp only [Gen.C01.edCurveMustEqual, Gen.C01.edKeyLen, Gen.C01.edSigLen, List.mem_cons, List.not_mem_nil, or_false,
+      forall_eq_or_imp, forall_eq] at h
+    obtain ⟨h1, h2, h3, h4, h5, h6⟩ := h
+    simp at h1 h2 h3 h4 h5 h6
+    exact ⟨ha, h1, h2, h3, h5, h4, h6⟩
+  · cases h
+
+/-- **`EcDSAJwsVerifier` accepts only**: algorithm `ES256` / `ES256K`, the curve chosen BY THAT ALGORITHM NAME (never by the
+key's `crv`), an EC key with 32-byte coordinates that are a point of that curve, a 64-byte signature that curve's scheme
+accepts -/
+theorem ec_sound (alg : String) (k : KeyMat) (n : Nat) (c : Crypto) (h : dispatch .ec alg k n c = .ok ()) :
+    ∃ curve, ((alg = "ES256" ∧ curve = "P-256") ∨ (alg = "ES256K" ∧ curve = "secp256k1")) ∧
+      k.kty = .ec ∧ k.xLen = some 32 ∧ k.yLen = some 32 ∧ n = 64 ∧ c.point curve = true ∧ c.sigOk curve = true := by
+  unfold dispatch at h
+  simp only at h
+  split at h
+  · rename_i curve hl
+    refine ⟨curve, ?_, ?_⟩
+    · simp only [Gen.C01.ecAlgs, List.lookup] at hl
+      split at hl
+      · rename_i he; left; simp at he; injection hl with hl; exact ⟨he, hl.symm⟩
+      · split at hl
+        · rename_i he; right; simp at he; injection hl with hl; exact ⟨he, hl.symm⟩
+        · cases hl
+    · unfold ecdsa at h
+      rw [firstFail_ok] at h
+      simp only [Gen.C01.ecChecksCrv, Gen.C01.ecCoordLen, Gen.C01.ecSigLen, List.mem_cons, List.not_mem_nil, or_false,
+        forall_eq_or_imp, forall_eq] at h
+      obtain ⟨h1, _, _, h4, _, h6, h7, h8⟩ := h
+      simp at h1 h4 h6 h7 h8
+      exact ⟨h1, h4.1, h4.2, h7, h6, h8⟩
+  · cases h
+
+/-- neither verifier has a reachable panic branch (the coordinate lengths are tested before they are collected) -/
+theorem verifiers_never_panic (d : Disp) (alg : String) (k : KeyMat) (n : Nat) (c : Crypto) : dispatch d alg k n c ≠ .error .panic := by
+  intro h
+  unfold dispatch at h
+  cases d with
+  | ed =>
+    simp only at h
+    split at h
+    · obtain ⟨g, hg, _, b⟩ := firstFail_err _ _ h
+      simp only [List.mem_cons, List.not_mem_nil, or_false] at hg
+      rcases hg with rfl | rfl | rfl | rfl | rfl | rfl <;> cases b
+    · cases h
+  | ec =>
+    simp only at h
+    split at h
+    · obtain ⟨g, hg, a, b⟩ := firstFail_err _ _ h
+      simp only [List.mem_cons, List.not_mem_nil, or_false, Gen.C01.ecCoordLen] at hg
+      rcases hg with rfl | rfl | rfl | rfl | rfl | rfl | rfl | rfl <;> simp_all
+    · cases h
+
+
+/-- the library verifier `d` as the `V` of `verify`: what the key material `mat key` and the cryptography say -/
+def libV (d : Disp) (mat : Key → KeyMat) (C : Key → Bytes → Bytes → Crypto) : String → Key → Bytes → Bytes → Bool :=
+  fun a key msg sig => accepts d a (mat key) sig.length (C key msg sig)
+
+/-- **verified through the library's verifier**: the dispatcher ran with the algorithm named in the PROTECTED header, over
+exactly the received signing input and signature, and accepted -/
+theorem verified_by_library_verifier (d : Disp) (mat : Key → KeyMat) (C : Key → Bytes → Bytes → Crypto)
+    (it : Item) (key : Key) (p : Hdr) (u : Option Hdr) (c : Bytes)
+    (h : verify (libV d mat C) it key = .ok (p, u, c)) :
+    it.prot = some p ∧ ∃ a, p.alg = some a ∧
+      dispatch d a (mat key) it.signature.length (C key it.signingInput it.signature) = .ok () := by
+  obtain ⟨hp, _, _, a, ha, _, hv⟩ := verify_sound _ it key p u c h
+  refine ⟨hp, a, ha, ?_⟩
+  unfold libV accepts at hv
+  split at hv
+  · rename_i x hx; cases x; exact hx
+  · cases hv
+
+/-- with `EdDSAJwsVerifier`: the protected header says `EdDSA`, the key is an Ed25519 key, and Ed25519 accepted the received
+bytes -/
+theorem verified_eddsa (mat : Key → KeyMat) (C : Key → Bytes → Bytes → Crypto)
+    (it : Item) (key : Key) (p : Hdr) (u : Option Hdr) (c : Bytes)
+    (h : verify (libV .ed mat C) it key = .ok (p, u, c)) :
+    p.alg = some "EdDSA" ∧ (mat key).kty = .okp ∧ (mat key).crv = "Ed25519" ∧ (mat key).xLen = some 32 ∧
+    it.signature.length = 64 ∧ (C key it.signingInput it.signature).sigOk "Ed25519" = true := by
+  obtain ⟨_, a, ha, hd⟩ := verified_by_library_verifier .ed mat C it key p u c h
+  obtain ⟨h1, h2, h3, h4, h5, _, h7⟩ := ed_sound a _ _ _ hd
+  exact ⟨h1 ▸ ha, h2, h3, h4, h5, h7⟩
+
+/-- with `EcDSAJwsVerifier`: the curve whose scheme accepted is the one the PROTECTED header's algorithm names -/
+theorem verified_ecdsa (mat : Key → KeyMat) (C : Key → Bytes → Bytes → Crypto)
+    (it : Item) (key : Key) (p : Hdr) (u : Option Hdr) (c : Bytes)
+    (h : verify (libV .ec mat C) it key = .ok (p, u, c)) :
+    ∃ curve, ((p.alg = some "ES256" ∧ curve = "P-256") ∨ (p.alg = some "ES256K" ∧ curve = "secp256k1")) ∧
+      (mat key).kty = .ec ∧ (mat key).xLen = some 32 ∧ (mat key).yLen = some 32 ∧ it.signature.length = 64 ∧
+      (C key it.signingInput it.signature).sigOk curve = true := by
+  obtain ⟨_, a, ha, hd⟩ := verified_by_library_verifier .ec mat C it key p u c h
+  obtain ⟨cv, hc, h2, h3, h4, h5, _, h7⟩ := ec_sound a _ _ _ hd
+  refine ⟨cv, ?_, h2, h3, h4, h5, h7⟩
+  rcases hc with ⟨e, f⟩ | ⟨e, f⟩
+  · exact Or.inl ⟨e ▸ ha, f⟩
+  · exact Or.inr ⟨e ▸ ha, f⟩
+
+example : accepts .ed "EdDSA" ⟨.okp, "Ed25519", some 32, none⟩ 64 ⟨fun _ => true, fun _ => true⟩ = true := by decide
+example : accepts .ed "EdDSA" ⟨.okp, "X25519", some 32, none⟩ 64 ⟨fun _ => true, fun _ => true⟩ = false := by decide
+example : accepts .ec "ES256K" ⟨.ec, "P-256", some 32, some 32⟩ 64 ⟨fun cv => cv == "P-256", fun cv => cv == "P-256"⟩ = false := by decide
+example : accepts .ec "ES256" ⟨.ec, "secp256k1", some 32, some 32⟩ 64 ⟨fun cv => cv == "P-256", fun cv => cv == "P-256"⟩ = true := by decide
+
+end LibraryVerifiers
 
 end IdModel.Props.C01
